@@ -38,7 +38,7 @@ TEXT = {
             "the encoded chain decodes for any snapshot to specVisible (newest version whose creator is the reader or "
             "committed before it, nothing if the deleter is); add_version/delete/vacuum on bytes refine the logical "
             "operations; vacuum at horizon h changes nothing for snapshots at or above h; calculate_new_tuple_size = "
-            "bytes written. Tied to storage/tuple.rs and Snapshot by ~7 800 generated operation sequences per run.",
+            "bytes written. Tied to storage/tuple.rs and Snapshot by ~13 000 generated operation sequences (~0.7 M snapshot decodes) per run.",
     "design_ref": "DESIGN.md §5 C18",
     "note": "Trusted: Lean kernel + propext/Quot.sound/Classical.choice; hand-written byte-level model of storage/tuple.rs "
             "(validated differentially, byte-exact up to uninitialised header padding); sizes/alignments extracted "
